@@ -130,17 +130,29 @@ def per_frame_refresh(ctx):
     # only busy clients with a matching identifier are selected
     f = 'COCSdoCheck'
     BUSY, IDLE = m.enum('CO_CSDO_STATE_BUSY'), m.enum('CO_CSDO_STATE_IDLE')
+    from canalyze.ir import array_extent
+    ncl = 1
+    for (fn_, ty, cty) in m.records.get('CO_NODE', ()):
+        if fn_ == 'CSdo':
+            ncl = array_extent(cty) or 1
     for st in (BUSY, IDLE):
+      for which in range(ncl):
         for ident in (0x585, 0x586):
-            trs = _run(m, f, {'frm->Identifier': ident, 'csdo[0].RxId': 0x585, 'csdo[0].State': st, 'csdo[0].TxId': 0x605})
+            inputs = {'frm->Identifier': ident}
+            for i in range(ncl):
+                # the other clients are busy on other identifiers
+                inputs['csdo[%d].RxId' % i] = 0x585 if i == which else 0x5A0 + i
+                inputs['csdo[%d].State' % i] = st if i == which else BUSY
+                inputs['csdo[%d].TxId' % i] = 0x605 if i == which else 0x620 + i
+            trs = _run(m, f, inputs)
             exp = (st == BUSY and ident == 0x585)
             got = set((t.ret not in (0, None)) for t in trs)
-            site = 'COCSdoCheck state=%d identifier=%Xh' % (st, ident)
+            site = 'COCSdoCheck client=%d of %d state=%d identifier=%Xh' % (which, ncl, st, ident)
             if got == set([exp]):
                 ctx.ob(P, 'RF12c-csdo', f, site, 'selected' if exp else 'ignored')
             else:
                 ctx.ob(P, 'RF12c-csdo', f, site, None)
-                ctx.find(P, 'RF12c-csdo', f, 'select:%d:%X' % (st, ident), m.loc(f, m.funcs[f].line),
+                ctx.find(P, 'RF12c-csdo', f, 'select:%d:%d:%X' % (which, st, ident), m.loc(f, m.funcs[f].line),
                          '%s: selected=%s, required %s (responses matter only to a busy client with that identifier)' % (site, sorted(got), exp))
 
 
